@@ -85,6 +85,60 @@ def known_or_raise(pid, v: Violation):
     return "known-finding:" + e["id"]
 
 
+# ------------------------------------------------------------------ coverage-guided phase
+def run_fuzz(mod, tier, seed, runs):
+    """K parallel libFuzzer campaigns (atheris) over mod.fuzz_decode + mod.check, each from an empty corpus in a fresh directory with
+    its own -seed; -> merged counters.  A campaign is reproducible only approximately (libFuzzer); the saved failing CASE is the
+    reproducible unit (it is an ordinary case: `--replay` runs it through check() without any fuzzer)."""
+    import shutil
+    import subprocess
+    nproc = int(os.environ.get("VF_FUZZ_PROCS", "8"))
+    base = os.path.join(VERIF, ".scratch", "fuzz", mod.PID)
+    shutil.rmtree(base, ignore_errors=True)
+    probe = subprocess.run([sys.executable, "-c", "import sys; sys.path.insert(0, %r); import atheris" % os.path.join(VERIF, ".deps")],
+                           capture_output=True)
+    if probe.returncode != 0:
+        return {"coverage": {"available": False, "note": "atheris is not installed under /verif/.deps (MANIFEST setup_cmd installs it)"},
+                "nontrivial": [], "labels": {}, "known": {}, "samples": [], "violation": None}
+    procs = []
+    for k in range(nproc):
+        out = os.path.join(base, str(k))
+        os.makedirs(out)
+        env = dict(os.environ, PYTHONHASHSEED="0")
+        procs.append((out, subprocess.Popen([sys.executable, "-m", "vf.core.fuzz_target", mod.__name__, out, str(runs), str(seed * 100 + k + 1)],
+                                            cwd=VERIF, env=env, stdout=subprocess.DEVNULL, stderr=subprocess.PIPE)))
+    cov = {"available": True, "engine": "atheris 3.1 / libFuzzer, annet instrumented, empty initial corpus", "processes": nproc,
+           "runs_per_process": runs, "evaluations": 0, "undecodable_inputs": 0, "corpus_files": 0, "exec_per_s": 0}
+    merged = {"coverage": cov, "nontrivial": [], "labels": Counter(), "known": Counter(), "samples": [], "violation": None}
+    wall = 0.0
+    for out, p in procs:
+        _, err = p.communicate()
+        sp = os.path.join(out, "stats.json")
+        if not os.path.exists(sp):
+            raise HarnessError("fuzz process wrote no stats (rc=%s): %s" % (p.returncode, err.decode(errors="replace")[-1500:]))
+        with open(sp) as f:
+            stt = json.load(f)
+        cov["evaluations"] += stt["evaluations"]
+        cov["undecodable_inputs"] += stt["undecodable"]
+        cov["corpus_files"] += len(os.listdir(os.path.join(out, "corpus")))
+        wall = max(wall, stt.get("wall", 0))
+        merged["nontrivial"] += stt["nontrivial"]
+        merged["labels"].update(stt["labels"])
+        merged["known"].update(stt["known"])
+        if len(merged["samples"]) < 2:
+            merged["samples"] += stt["samples"][:1]
+        vp = os.path.join(out, "violation.json")
+        if os.path.exists(vp) and merged["violation"] is None:
+            with open(vp) as f:
+                merged["violation"] = json.load(f)
+        elif p.returncode != 0 and not os.path.exists(vp):
+            raise HarnessError("fuzz process failed without a violation (rc=%s): %s" % (p.returncode, err.decode(errors="replace")[-1500:]))
+    cov["exec_per_s"] = int(cov["evaluations"] / wall) if wall else 0
+    cov["distinct_nontrivial"] = len(set(merged["nontrivial"]))
+    shutil.rmtree(base, ignore_errors=True)
+    return merged
+
+
 # ------------------------------------------------------------------ shard worker
 class CaseTimeout(BaseException):
     """(BaseException: the checks' own 'except Exception' clauses around the code under test must not swallow it)"""
@@ -389,6 +443,30 @@ def run_property(modname, tier, seed, replay=None):
                     samples.append(s)
             extra_cov = ex.get("coverage", {})
 
+    # ---- coverage-guided fuzz phase (atheris/libFuzzer) around the same oracle, for modules that provide fuzz_decode
+    fuzz_cov = None
+    fuzz_runs = getattr(mod, "FUZZ_RUNS", {"quick": 0, "thorough": 15000}).get(tier, 0) if hasattr(mod, "fuzz_decode") else 0
+    if os.environ.get("VF_FUZZ_RUNS"):
+        fuzz_runs = int(os.environ["VF_FUZZ_RUNS"]) if hasattr(mod, "fuzz_decode") else 0
+    if violation is None and not harness_errors and fuzz_runs > 0:
+        try:
+            fz = run_fuzz(mod, tier, seed, fuzz_runs)
+        except Exception as e:
+            fz = None
+            harness_errors.append("".join(traceback.format_exception(type(e), e, e.__traceback__)))
+        if fz is not None:
+            fuzz_cov = fz["coverage"]
+            nontriv.update(fz["nontrivial"])
+            for k, v in fz["labels"].items():
+                labels["fuzz:" + k] += v
+            for k, v in fz["known"].items():
+                known[k] += v
+            for smp in fz["samples"]:
+                if len(samples) < MAX_SAMPLES + 3:
+                    samples.append(smp)
+            if fz["violation"] is not None:
+                violation = fz["violation"]
+
     wall = time.time() - t0
     # ---- vacuity guard
     floors = getattr(mod, "FLOORS", {})
@@ -415,6 +493,10 @@ def run_property(modname, tier, seed, replay=None):
         "exhaustive": bool(getattr(mod, "ENUM_EXHAUSTIVE", False)) and violation is None,
     }
     coverage.update(extra_cov)
+    if fuzz_cov is not None:
+        coverage["fuzz"] = fuzz_cov
+        coverage["evaluations"] += fuzz_cov.get("evaluations", 0)
+        total_eval += fuzz_cov.get("evaluations", 0)
     if getattr(mod, "EXHAUSTIVE_NOTE", None):
         coverage["exhaustive_scope"] = mod.EXHAUSTIVE_NOTE
     write_evidence(pid, tier, seed, getattr(mod, "LEVEL", "exploration"), coverage,
